@@ -198,7 +198,10 @@ def judge (known : List String) (case impl : String) : JudgeOut :=
         match numExpected nty text with
         | some a =>
           let m := render (numAnsSexp a)
-          if impl = m then .ok else if safe i then .tie m specText else .viol m specText
+          -- the prediction is computed from the table extracted from the tree under test, so it may
+          -- itself say `crash` for a mutated source: a crash is a violation whatever the model says
+          if !safe i then .viol m specText
+          else if impl = m then .ok else .tie m specText
         | none => if safe i then .ok else .viol "ok | err" specText
     | .list [.atom "numtypes"] =>
       match i with
